@@ -17,7 +17,7 @@ def run(ctx):
     states = transitions = replayed = 0
     # (family, blocks, bound on deliveries quick / thorough, Idle calls interleaved)
     fams = [("ForkA", 6, 9, "FALSE"), ("ForkB", 6, 10, "FALSE"), ("ForkC", 8, 8, "FALSE"), ("ForkD", 5, 7, "TRUE"),
-            ("Retarget", 6, 8, "FALSE")]
+            ("ForkE", 7, 7, "TRUE"), ("Retarget", 6, 8, "FALSE")]
     if not quick:
         fams += [("ForkA", 9, 9, "TRUE"), ("ForkC", 8, 8, "TRUE")]
     first = None
